@@ -23,7 +23,7 @@ func init() {
 		Strata: []fw.Stratum{
 			{Name: "grid-len0-320-x-mtu1-320", N: fw.Const(320, 320), Run: c16Grid, Exhaustive: true},
 			{Name: "mtu-multiples", N: fw.Const(9*34, 9*34), Run: c16Multiples},
-			{Name: "random-pairs", N: fw.Const(20000, 2000000), Run: c16Random},
+			{Name: "random-pairs", N: fw.Const(200000, 4000000), Run: c16Random},
 			{Name: "opus", N: fw.Const(400, 40000), Run: c16Opus},
 		},
 	})
